@@ -10,7 +10,9 @@ import json
 import os
 import shutil
 
-WAVES = [("/tmp/seed", "seed", ""), ("/tmp/seed2", "seed2", "-2")]
+WAVES = [("/tmp/seed", "seed", ""), ("/tmp/seed2", "seed2", "-2"), ("/tmp/seed3", "seed3", "-3")]
+# changes that are caught by the check of another property (the other check's id)
+CAUGHT_BY = {("seed3", "C28"): "C30"}
 OUT = "/verif/seeded"
 NOTES = {
     ("seed", "C01"): "caught after indentation-only edits of started lines were added to the edit alphabet",
@@ -44,6 +46,22 @@ NOTES = {
     ("seed2", "C34"): "caught after the tie rule was tightened to 'the value recorded last'",
     ("seed2", "C40"): "caught after request-first thread order over a 4-tick window was added",
     ("seed2", "C41"): "caught after the redefinition family (a macro defined twice) was added",
+    ("seed3", "C02"): "caught after the family 'macro first called inside a Block, then again at top level' was added",
+    ("seed3", "C07"): "caught after Process Time was judged over the Restarting->Stopped tick as well",
+    ("seed3", "C08"): "caught after a read-back output register (direction Both, safe value) was added to the harness UOD",
+    ("seed3", "C09"): "caught after a failing user command during a pause (alphabet B: Fail) and the paused-with-driven-outputs seed history were added",
+    ("seed3", "C10"): "caught after a derived tag registered before its input and a simulation to the current value were added",
+    ("seed3", "C12"): "caught after a cancel of the same item 1..3 ticks after an accepted force was added",
+    ("seed3", "C16"): "caught after an instant output command (Valve) was added to the C16/C36 corpus (Pause/Unpause then restores a driven output)",
+    ("seed3", "C17"): "caught in the thorough tier at once; in the quick tier after 5-line texts over a mini alphabet were added",
+    ("seed3", "C19"): "caught after 'missing value' lines for every comparator were added",
+    ("seed3", "C20"): "caught after a UOD command with a hand-written un-anchored regex was added to the harness",
+    ("seed3", "C25"): "first reported as harness nondeterminism (exit 2); now the isolation probe and the framework report state carried between fresh instances as a violation",
+    ("seed3", "C28"): "caught by C30 (the history needs a second run id, which C28's alphabet does not have) after exceptions from aggregator entry points were made violations instead of harness errors",
+    ("seed3", "C33"): "caught after every one-user configuration was also stored as the second save of that user",
+    ("seed3", "C36"): "caught after runs with 400 ticks without a report were added",
+    ("seed3", "C40"): "caught after scenarios in which a UOD command is handed over inside the window were added",
+    ("seed3", "C41"): "caught after recursion closed from inside an Alarm/Watch/Block in a macro body was added",
 }
 
 
@@ -61,8 +79,12 @@ def main():
                 continue
             res = json.load(open(res_fn))
             meta = json.load(open(f"{src}/{pid}.meta.json"))
+            other = CAUGHT_BY.get((wave, pid))
+            head_fn = f"/tmp/tp/{wave}_{pid}.txt" if not other else f"/tmp/tp/{wave}_{pid}_by_{other}.txt"
+            head_line = open(head_fn).read().strip() if os.path.exists(head_fn) else ""
+            caught = (res.get("check_rc") == "1" and not other) or " rc=1 " in head_line
             ok = (res.get("compile_rc") == "0" and res.get("demo_rc_without") == "0" and res.get("demo_rc_with") not in ("0", None)
-                  and not res.get("failed_when_rerun_alone", "").strip() and res.get("check_rc") == "1")
+                  and not res.get("failed_when_rerun_alone", "").strip() and caught)
             name = pid + suffix
             if not ok:
                 why = "patch does not apply to HEAD" if res.get("applies") is False else f"confirmation incomplete: {json.dumps(res)[:300]}"
@@ -73,7 +95,8 @@ def main():
             shutil.copy(f"{src}/{pid}.patch.diff", os.path.join(d, "patch.diff"))
             shutil.copy(f"{src}/{pid}.demo_test.py", os.path.join(d, "demo_test.py"))
             out_meta = {
-                "property": pid, "wave": 1 if wave == "seed" else 2,
+                "property": pid, "wave": {"seed": 1, "seed2": 2, "seed3": 3}[wave], "caught_by_check": other or pid,
+                "check_on_final_head": head_line[:600],
                 "summary": meta.get("summary"), "files": meta.get("files"),
                 "needs_to_manifest": meta.get("needs_to_manifest"),
                 "sub_agent_tests_run": meta.get("tests_run"),
@@ -92,7 +115,7 @@ def main():
                     "check_signatures": res.get("check_signatures", "").split(),
                 },
                 "check_strengthened_first": NOTES.get((wave, pid)),
-                "to_run_against_repo": f"git -C /repo apply /verif/seeded/{name}/patch.diff && (cd /verif && python -m mc check {pid} --tier quick); git -C /repo checkout -- .",
+                "to_run_against_repo": f"git -C /repo apply /verif/seeded/{name}/patch.diff && (cd /verif && python -m mc check {other or pid} --tier quick); git -C /repo checkout -- .",
             }
             json.dump(out_meta, open(os.path.join(d, "meta.json"), "w"), indent=1)
             rows.append((name, pid, ", ".join(meta.get("files") or []), (meta.get("summary") or "")[:160],
@@ -102,11 +125,11 @@ def main():
                 "Each directory holds `patch.diff` (apply with `git -C /repo apply`, undo with `git -C /repo checkout -- .`), the sub-agent's\n"
                 "demonstration `demo_test.py` (run as a plain script from the patched tree: passes without, fails with the change) and\n"
                 "`meta.json` (what it needs to manifest, what the sub-agent ran, what I ran to confirm it, which signatures the check reports,\n"
-                "and what had to be strengthened before the check caught it).  `Cxx` = first wave, `Cxx-2` = second wave.  None of these\n"
+                "and what had to be strengthened before the check caught it).  `Cxx` = first wave, `Cxx-2` = second wave, `Cxx-3` = third wave.  None of these\n"
                 "changes is committed to `/repo`.\n\n"
                 "| seed | check | file(s) | change | signatures reported (first 3) | strengthened first |\n|---|---|---|---|---|---|\n")
         for name, pid, files, summary, sigs in rows:
-            wave = "seed2" if name.endswith("-2") else "seed"
+            wave = "seed3" if name.endswith("-3") else "seed2" if name.endswith("-2") else "seed"
             note = NOTES.get((wave, pid), "") or ("" if summary.startswith("NOT") or summary.startswith("not") else "no (caught by the first version)")
             f.write(f"| {name} | {pid} | {files} | {summary.replace('|', '/')} | {sigs.replace('|', '/')} | {note} |\n")
     kept = sum(1 for r in rows if not r[3].startswith(("NOT", "not")))
